@@ -274,3 +274,62 @@ Proof.
     - apply NoDup_incl_length; [exact Hn | intros x Hx; rewrite nodup_In; apply Hsup; exact Hx]. }
   rewrite Heq, Nat.eqb_refl. reflexivity.
 Qed.
+
+(* ---- refused calls ---- *)
+Lemma uses_loop_locked_irrelevant s names : locked (set_declared s (fst (uses_loop (declared s) names))) = locked s.
+Proof. reflexivity. Qed.
+
+(* only a successful bake locks a recipe: no other call, and no refused call, changes the lock *)
+Theorem only_accepted_bake_locks s c s' o : step_api s c = (s', o) -> locked s' <> locked s -> c = CBake /\ o = Accepted.
+Proof.
+  intros H Hl. destruct c; cbn [step_api] in H.
+  - unfold do_uses in H. destruct (locked s) eqn:E; [inversion H; subst; congruence|].
+    destruct (uses_loop (declared s) names) as [d o']. inversion H; subst. cbn in Hl. congruence.
+  - destruct (locked s) eqn:E; [inversion H; subst; congruence|]. destruct (mem name (declared s)); inversion H; subst; cbn in Hl; congruence.
+  - destruct (locked s) eqn:E; [inversion H; subst; congruence|].
+    destruct (match solvent with Some v => negb (mem v (declared s)) | None => false end); [inversion H; subst; congruence|].
+    destruct (mem name (declared s)); inversion H; subst; cbn in Hl; congruence.
+  - destruct (locked s) eqn:E; [inversion H; subst; congruence|]. destruct (negb (mem src (declared s))); [inversion H; subst; congruence|].
+    destruct (mem name (declared s)); inversion H; subst; cbn in Hl; congruence.
+  - destruct (locked s) eqn:E; [inversion H; subst; congruence|]. destruct (negb (mem src (declared s))); [inversion H; subst; congruence|].
+    destruct (negb (mem dst (declared s))); inversion H; subst; cbn in Hl; congruence.
+  - destruct (locked s) eqn:E; [inversion H; subst; congruence|]. destruct (negb (mem dst (declared s))); inversion H; subst; cbn in Hl; congruence.
+  - destruct (locked s) eqn:E; [inversion H; subst; congruence|]. destruct (negb (mem dst (declared s))); inversion H; subst; cbn in Hl; congruence.
+  - destruct (locked s) eqn:E; [inversion H; subst; congruence|]. destruct (negb (mem dst (declared s))); inversion H; subst; cbn in Hl; congruence.
+  - destruct (locked s) eqn:E; [inversion H; subst; congruence|]. destruct (stage_known s n); [inversion H; subst; congruence|].
+    destruct (negb (Nat.eqb (cur s) 0)); inversion H; subst; cbn in Hl; congruence.
+  - unfold end_stage in H. destruct (locked s) eqn:E; [inversion H; subst; congruence|]. destruct (Nat.eqb n 0); [inversion H; subst; congruence|].
+    destruct (negb (Nat.eqb (cur s) n)); inversion H; subst; cbn in Hl; congruence.
+  - destruct (locked s) eqn:E; [inversion H; subst; congruence|].
+    destruct (negb (Nat.eqb (set_size _) _)); inversion H; subst; cbn in Hl; [congruence | split; reflexivity].
+Qed.
+
+(* a refused call other than uses (which declares its arguments one by one) and bake (which closes the open stage and marks the
+   used objects before it looks for unused declarations) leaves the recipe exactly as it was *)
+Theorem refused_call_changes_nothing s c s' e :
+  (forall l, c <> CUses l) -> c <> CBake -> step_api s c = (s', Raise e) -> s' = s.
+Proof.
+  intros Hu Hb H. destruct c; cbn [step_api] in H; try (exfalso; apply (Hu names); reflexivity); try congruence.
+  - destruct (locked s); [congruence|]. destruct (mem name (declared s)); congruence.
+  - destruct (locked s); [congruence|]. destruct (match solvent with Some v => negb (mem v (declared s)) | None => false end); [congruence|].
+    destruct (mem name (declared s)); congruence.
+  - destruct (locked s); [congruence|]. destruct (negb (mem src (declared s))); [congruence|]. destruct (mem name (declared s)); congruence.
+  - destruct (locked s); [congruence|]. destruct (negb (mem src (declared s))); [congruence|]. destruct (negb (mem dst (declared s))); congruence.
+  - destruct (locked s); [congruence|]. destruct (negb (mem dst (declared s))); congruence.
+  - destruct (locked s); [congruence|]. destruct (negb (mem dst (declared s))); congruence.
+  - destruct (locked s); [congruence|]. destruct (negb (mem dst (declared s))); congruence.
+  - destruct (locked s); [congruence|]. destruct (stage_known s n); [congruence|]. destruct (negb (Nat.eqb (cur s) 0)); congruence.
+  - unfold end_stage in H. destruct (locked s); [congruence|]. destruct (Nat.eqb n 0); [congruence|]. destruct (negb (Nat.eqb (cur s) n)); congruence.
+Qed.
+(* a refused bake leaves the recipe unlocked, with the same declarations and steps *)
+Theorem refused_bake_does_not_lock s s' e : locked s = false -> step_api s CBake = (s', Raise e) ->
+  locked s' = false /\ declared s' = declared s /\ steps s' = steps s.
+Proof.
+  intros Hl H. cbn [step_api] in H. rewrite Hl in H.
+  assert (X : declared (if Nat.eqb (cur s) 0 then s else fst (end_stage s (cur s))) = declared s /\
+              steps (if Nat.eqb (cur s) 0 then s else fst (end_stage s (cur s))) = steps s).
+  { destruct (Nat.eqb (cur s) 0) eqn:E0; [split; reflexivity|]. unfold end_stage. rewrite Hl, E0.
+    rewrite Nat.eqb_refl. cbn. split; reflexivity. }
+  destruct X as [Xd Xs].
+  destruct (negb (Nat.eqb (set_size _) _)); inversion H; subst; cbn [locked declared steps]; auto.
+Qed.
